@@ -1,4 +1,4 @@
-"""C70 — default.clifford simulates stabilizer circuits exactly (DESIGN §5.? C70).
+"""C70 — default.clifford simulates stabilizer circuits exactly (DESIGN §5.11 C70).
 
 E2: every word of length <= 2 (thorough: <= 3 over a 29-letter sub-alphabet) over the device's own translation table
 (read at run time: every Clifford gate x every wire placement on 3 wires), executed through qp.execute on
@@ -22,7 +22,7 @@ LEVEL_NOTE = ("Reference = mc.refgates matrices applied by tensordot. States are
               "returns complex64). Sampling clause: stim's RNG cannot be owned; decided as support equality for a fixed seed "
               "(the computational-basis distribution of a stabilizer state is uniform on its support) plus exactness of "
               "deterministic outcomes; frequencies themselves are not tested. Snapshots are C71's; mid-circuit measurements not explored.")
-DESIGN_REF = "5.5 C70"
+DESIGN_REF = "5.11 C70"
 START = "fork"
 PARALLEL = True
 RULE = ("one case = (word over the translation-table alphabet, measurement group, device wires option); complete enumeration "
